@@ -288,3 +288,347 @@ def add_overlay_strings(reg):
     for s in specs:
         reg.add(s)
     return specs
+
+
+# ------------------------------------------------------------------------------------------------
+# write path: physical contracts on the newest container (effects), C01 / C09 / C17
+
+HASP = z3.Function("newest_has_path", S, B)  # path exists in the newest container file (entry state)
+VISIBLE = z3.Function("visible_in_view", S, B)  # key resolves to a live node/attribute in the overlay view (contract of _find/_expect_real_item_idx)
+FOUND_IDX = z3.Function("found_container_idx", S, I)
+
+T1_WRITE = "T1 h5py write protocol on the newest container: del f[p], f[p] = v, create_group(p) (creates missing intermediates, plain), .attrs[k] = v / del .attrs[k]; each recorded as an effect on that file only"
+
+
+class DelMark(SVal):
+    """the reserved deletion-marker value np.void(b'\\x7f')"""
+
+    def py_truth(self, cx):
+        return True
+
+
+class NpModule(SVal):
+    def py_getattr(self, cx, name):
+        if name == "void":
+            return lambda cx2, b: DelMark() if getattr(b, "b", None) == b"\x7f" else OpaqueVal("np.void")
+        if name == "ndarray":
+            return SClass("ndarray")
+        raise Unsupported(f"np.{name}")
+
+
+class OpaqueVal(SVal):
+    def __init__(self, tag):
+        self.tag = tag
+
+    def py_truth(self, cx):
+        return True
+
+
+class WAttrs(SVal):
+    def __init__(self, path):
+        self.path = path
+
+    def py_setitem(self, cx, k, v):
+        cx.effect("attr-set", self.path, k.t if isinstance(k, SStr) else z3.StringVal(k), v)
+
+    def py_delitem(self, cx, k):
+        cx.effect("attr-del", self.path, k.t if isinstance(k, SStr) else z3.StringVal(k))
+
+
+class WNode(SVal):
+    def __init__(self, path):
+        self.path = path
+
+    def attr_attrs(self, cx):
+        return WAttrs(self.path)
+
+
+class NewestFile(SVal):
+    """self._files[-1] for writers: membership is the entry-state predicate HASP until this call changes it."""
+
+    def __init__(self, node):
+        self.node = node
+        self.created = []  # paths created by this call (python-level: syntactically equal terms)
+        self.deleted = []
+
+    def py_contains(self, cx, p):
+        pt = p.t if isinstance(p, SStr) else z3.StringVal(p)
+        for c in self.created:
+            if z3.eq(c, pt):
+                return True
+        for c in self.deleted:
+            if z3.eq(c, pt):
+                return False
+        return HASP(pt)
+
+    def py_delitem(self, cx, p):
+        pt = p.t if isinstance(p, SStr) else z3.StringVal(p)
+        cx.effect("h5del", pt)
+        self.deleted.append(pt)
+
+    def py_setitem(self, cx, p, v):
+        pt = p.t if isinstance(p, SStr) else z3.StringVal(p)
+        cx.effect("h5set", pt, v)
+        self.created.append(pt)
+
+    def py_getitem(self, cx, p):
+        return WNode(p.t if isinstance(p, SStr) else z3.StringVal(p))
+
+    def meth_create_group(self, cx, p):
+        pt = p.t if isinstance(p, SStr) else z3.StringVal(p)
+        cx.effect("h5mkgrp", pt)
+        self.created.append(pt)
+        return WNode(pt)
+
+
+class WFiles(SVal):
+    def __init__(self, node):
+        self.node = node
+        self.newest = NewestFile(node)
+
+    def py_len(self, cx):
+        return SInt(self.node.nfiles)
+
+    def py_getitem(self, cx, i):
+        if i == -1:
+            return self.newest
+        raise Unsupported("writers only touch the newest container")
+
+
+def wnode_obj(cx, attrs=False):
+    n = node_obj(cx)
+    n.read_only = z3.Bool("record_read_only")
+    n.key_ok = z3.Function("key_passes_guard", S, B)
+    n.cls = "IH5AttributeManager" if attrs else "IH5Group"
+    n.wfiles = WFiles(n)
+    return n
+
+
+def abs_path_term(node, p):
+    g = node.fields["_gpath"].t
+    return z3.If(z3.PrefixOf(z3.StringVal("/"), p), p, z3.If(g == z3.StringVal("/"), z3.Concat(z3.StringVal("/"), p), z3.Concat(g, z3.StringVal("/"), p)))
+
+
+class Writer(FnSpec):
+    file = "ih5/overlay.py"
+    props = ("C01", "C09")
+    raises_exact = False
+
+    def init(self):
+        self.bindings["np"] = NpModule()
+        self.bindings["h5py"] = H5pyMod()
+
+    def requires(self, cx, a):
+        return [("patch-containers", a.self.nfiles >= 1), ("absolute-gpath", z3.PrefixOf(z3.StringVal("/"), a.self.fields["_gpath"].t))]
+
+    def guard_conds(self, cx, a, key_t):
+        n = a.self
+        return z3.Or(z3.Not(n.is_open), n.read_only, z3.Not(n.key_ok(key_t)))
+
+    def on_raise(self, cx, a, exc):
+        return [("rejected-without-effect", z3.BoolVal(not cx.fx), "an operation that fails leaves the record unchanged")]
+
+
+class GroupDelitem(Writer):
+    qual = "IH5Group.__delitem__"
+
+    def setup(self, cx):
+        return A(self=wnode_obj(cx), key=SStr(z3.String("key")))
+
+    def raises(self, cx, a):
+        k = a.key.t
+        return {"KeyError": z3.Or(z3.Not(a.self.is_open), z3.Not(VISIBLE(k))), "ValueError": z3.Or(a.self.read_only, z3.Not(a.self.key_ok(k)))}
+
+    def ensures(self, cx, a, res):
+        n = a.self
+        k = a.key.t
+        path = abs_path_term(n, k)
+        fx = cx.fx
+        kinds = [e[0] for e in fx]
+        out = [("only-when-allowed", z3.And(z3.Not(self.guard_conds(cx, a, k)), VISIBLE(k)), "delete succeeds exactly when the key is visible (as on the single tree) and the record is writable")]
+        marker = [e for e in fx if e[0] == "h5set"]
+        real = [e for e in fx if e[0] == "h5del"]
+        out.append(("patch:deletion-marker-always-written", z3.Implies(n.nfiles > 1, z3.BoolVal(len(marker) == 1 and isinstance(marker[0][2], DelMark)) if marker else z3.BoolVal(False)), "in a patch a deletion is always recorded by a marker, so older data can never reappear"))
+        out.append(("base:no-marker", z3.Implies(n.nfiles == 1, z3.BoolVal(not marker)), "the base container needs no markers"))
+        if marker:
+            out.append(("marker-at-the-deleted-path", marker[0][1] == path, "the marker is written at the deleted path"))
+        out.append(("real-delete-iff-present-in-newest", z3.BoolVal(len(real) == 1) == HASP(path), "what exists in the newest container at that path is really deleted"))
+        if real:
+            out.append(("real-delete-at-the-path-and-first", z3.And(real[0][1] == path, z3.BoolVal(kinds.index("h5del") == 0)), "the real delete happens before the marker is written"))
+        out.append(("nothing-else-written", z3.BoolVal(set(kinds) <= {"h5del", "h5set"}), "nothing else is touched"))
+        return out
+
+
+class AttrDelitem(Writer):
+    qual = "IH5AttributeManager.__delitem__"
+
+    def setup(self, cx):
+        return A(self=wnode_obj(cx, attrs=True), key=SStr(z3.String("key")))
+
+    def raises(self, cx, a):
+        k = a.key.t
+        return {"KeyError": z3.Or(z3.Not(a.self.is_open), z3.Not(VISIBLE(k))), "ValueError": z3.Or(a.self.read_only, z3.Not(a.self.key_ok(k)))}
+
+    def ensures(self, cx, a, res):
+        n = a.self
+        k = a.key.t
+        g = n.fields["_gpath"].t
+        fx = cx.fx
+        sets = [e for e in fx if e[0] == "attr-set"]
+        dels = [e for e in fx if e[0] == "attr-del"]
+        mk = [e for e in fx if e[0] == "h5mkgrp"]
+        out = [("only-when-allowed", z3.And(z3.Not(self.guard_conds(cx, a, k)), VISIBLE(k)), "attribute delete succeeds exactly when the attribute is visible")]
+        out.append(("patch:deletion-marker-always-written", z3.Implies(n.nfiles > 1, z3.BoolVal(len(sets) == 1 and isinstance(sets[0][3], DelMark)) if sets else z3.BoolVal(False)), "in a patch a deleted attribute is always recorded by a marker"))
+        out.append(("base:no-marker", z3.Implies(n.nfiles == 1, z3.BoolVal(not sets)), "the base container needs no markers"))
+        if sets:
+            out.append(("marker-at-this-node-and-key", z3.And(sets[0][1] == g, sets[0][2] == k), "the marker is written at this node under the deleted key"))
+        out.append(("real-delete-iff-newest-holds-it", z3.BoolVal(len(dels) == 1) == (FOUND_IDX(k) == n.nfiles - 1), "the attribute is really deleted iff the newest container holds it"))
+        out.append(("carrier-created-iff-missing", z3.Implies(n.nfiles > 1, z3.BoolVal(len(mk) == 1) == z3.Not(HASP(g))), "a carrier group is created in the patch only if the node is not there yet"))
+        if mk:
+            out.append(("carrier-at-this-node", mk[0][1] == g, "the carrier is this node's path"))
+        return out
+
+
+class AttrSetitem(Writer):
+    qual = "IH5AttributeManager.__setitem__"
+    props = ("C01", "C09", "C17")
+
+    def setup(self, cx):
+        kind = cx.choose(2)
+        val = DelMark() if kind == 1 else OpaqueVal("value")
+        return A(self=wnode_obj(cx, attrs=True), key=SStr(z3.String("key")), val=val)
+
+    def raises(self, cx, a):
+        k = a.key.t
+        return {"KeyError": z3.Not(a.self.is_open), "ValueError": z3.Or(a.self.read_only, z3.Not(a.self.key_ok(k)), z3.BoolVal(isinstance(a.val, DelMark)))}
+
+    def ensures(self, cx, a, res):
+        n = a.self
+        k = a.key.t
+        g = n.fields["_gpath"].t
+        fx = cx.fx
+        sets = [e for e in fx if e[0] == "attr-set"]
+        mk = [e for e in fx if e[0] == "h5mkgrp"]
+        out = [("only-when-allowed", z3.And(z3.Not(self.guard_conds(cx, a, k)), z3.BoolVal(not isinstance(a.val, DelMark))), "the reserved deletion-marker value is rejected loudly; otherwise set succeeds on a writable record")]
+        out.append(("value-stored-unmodified", z3.BoolVal(len(sets) == 1 and sets[0][3] is a.val) if sets else z3.BoolVal(False), "the given value is what is stored"))
+        if sets:
+            out.append(("stored-at-this-node-and-key", z3.And(sets[0][1] == g, sets[0][2] == k), "stored at this node under the given key"))
+        out.append(("carrier-created-iff-missing", z3.BoolVal(len(mk) == 1) == z3.Not(HASP(g)), "a carrier group is created only if the node is not in the newest container yet"))
+        out.append(("nothing-else-written", z3.BoolVal({e[0] for e in fx} <= {"attr-set", "h5mkgrp"}), "nothing else is touched"))
+        return out
+
+
+def _guard_value_binding(cx, node, val):
+    """IH5Node._guard_value as seen by writers (verified as GuardValue): the reserved marker, nodes and links are refused."""
+    if isinstance(val, DelMark):
+        cx.py_raise("ValueError", "forbidden value")
+
+
+def add_writers(reg):
+    for c in ("IH5Group", "IH5AttributeManager"):
+        reg.set_class_home(c, "ih5/overlay.py")
+        reg.attr_bindings[(c, "_files")] = lambda cx, o: o.wfiles
+        reg.attr_bindings[(c, "_last_idx")] = lambda cx, o: SInt(o.nfiles - 1)
+        reg.attr_bindings[(c, "_is_attrs")] = lambda cx, o: SBool(o.is_attrs)
+        reg.method_bindings[(c, "_guard_open")] = lambda cx, o: (None if cx.decide(o.is_open) else cx.py_raise("KeyError", "Record is not open or accessible!"))
+        reg.method_bindings[(c, "_guard_read_only")] = lambda cx, o: (cx.py_raise("ValueError", "Create a patch") if cx.decide(o.read_only) else None)
+        reg.method_bindings[(c, "_guard_key")] = lambda cx, o, k: (None if cx.decide(o.key_ok(k.t)) else cx.py_raise("ValueError", "invalid key"))
+        reg.method_bindings[(c, "_guard_value")] = _guard_value_binding
+        reg.method_bindings[(c, "_expect_real_item_idx")] = lambda cx, o, k: (SInt(FOUND_IDX(k.t)) if cx.decide(VISIBLE(k.t)) else cx.py_raise("KeyError", "does not exist"))
+        reg.method_bindings[(c, "_abs_path")] = lambda cx, o, p: SStr(abs_path_term(o, p.t if isinstance(p, SStr) else z3.StringVal(p)))
+    specs = [GroupDelitem(), AttrDelitem(), AttrSetitem()]
+    for s in specs:
+        reg.add(s)
+    return specs
+
+
+# ------------------------------------------------------------------------------------------------
+# IH5Group.copy / move: where the copy goes (C01, C09)
+
+STRIP_SLASH = z3.Function("str_strip_47", S, S)  # s.strip("/")  (same opaque function the engine uses)
+
+
+class ViewNode(SVal):
+    """a node of the overlay view at an absolute path"""
+
+    def __init__(self, path_t, root=False):
+        self.path_t, self.root = path_t, root
+
+    def py_truth(self, cx):
+        return True
+
+    def attr_name(self, cx):
+        return SStr(self.path_t)
+
+
+class GroupCopy(Writer):
+    qual = "IH5Group.copy"
+
+    def init(self):
+        Writer.init(self)
+        self.bindings["h5_copy_from_to"] = lambda cx, src, grp, name, **kw: cx.effect("copy-call", src, grp, name.t if isinstance(name, SStr) else z3.StringVal(name), tuple(sorted(kw)))
+        self.bindings["cast"] = lambda cx, t, v: v
+
+    def setup(self, cx):
+        return A(self=wnode_obj(cx), source=SStr(z3.String("source")), dest=SStr(z3.String("dest")), __kwargs__={})
+
+    def raises(self, cx, a):
+        return {"KeyError": z3.Not(VISIBLE(a.source.t))}
+
+    def ensures(self, cx, a, res):
+        n = a.self
+        calls = [e for e in cx.fx if e[0] == "copy-call"]
+        if len(calls) != 1:
+            return [("one-copy", z3.BoolVal(False), "copy performs one tree copy")]
+        _, src, grp, name_t, kw, _line = calls[0]
+        ok_src = isinstance(src, ViewNode) and not src.root
+        return [
+            ("source-is-the-named-node", (src.path_t == abs_path_term(n, a.source.t)) if ok_src else z3.BoolVal(False), "the node named by `source` (relative to this group) is copied"),
+            ("destination-relative-to-this-group", z3.And(z3.BoolVal(isinstance(grp, ViewNode) and grp.root), name_t == STRIP_SLASH(abs_path_term(n, a.dest.t))), "a relative destination is resolved against the calling group, exactly as on the single tree"),
+        ]
+
+
+class GroupMove(Writer):
+    qual = "IH5Group.move"
+
+    def setup(self, cx):
+        return A(self=wnode_obj(cx), source=SStr(z3.String("source")), dest=SStr(z3.String("dest")))
+
+    def raises(self, cx, a):
+        return {"Exception": z3.BoolVal(True)}
+
+    def ensures(self, cx, a, res):
+        calls = [e for e in cx.fx if e[0] in ("copy-m", "del-m")]
+        ok = len(calls) == 2 and calls[0][0] == "copy-m" and calls[1][0] == "del-m"
+        out = [("copy-then-delete", z3.BoolVal(ok), "move = copy to the destination, then delete the source")]
+        if ok:
+            out.append(("same-arguments", z3.BoolVal(calls[0][1] is a.source and calls[0][2] is a.dest and calls[1][1] is a.source), "the source is copied to dest and then the source is deleted"))
+        return out
+
+
+def add_copy_move(reg):
+    def getitem(cx, node, key):
+        kt = key.t if isinstance(key, SStr) else z3.StringVal(key)
+        if isinstance(key, str) and key == "/":
+            return ViewNode(z3.StringVal("/"), root=True)
+        if not cx.decide(VISIBLE(kt)):
+            cx.py_raise("KeyError", "missing")
+        return ViewNode(abs_path_term(node, kt))
+
+    reg.method_bindings[("IH5Group", "__getitem__")] = getitem
+    specs = [GroupCopy(), GroupMove()]
+    reg.add(specs[0])
+    reg.add(specs[1])
+    # for move: copy and delete are logged as calls
+    orig_setup = specs[1].setup
+
+    def setup(cx):
+        a = orig_setup(cx)
+        a.self.cls = "IH5GroupForMove"
+        return a
+
+    specs[1].setup = setup
+    reg.set_class_home("IH5GroupForMove", "ih5/overlay.py", "IH5Group")
+    reg.method_bindings[("IH5GroupForMove", "copy")] = lambda cx, o, s, d, **kw: cx.effect("copy-m", s, d)
+    reg.method_bindings[("IH5GroupForMove", "__delitem__")] = lambda cx, o, k: cx.effect("del-m", k)
+    return specs
